@@ -421,12 +421,12 @@ func c05FailParks(c *Ctx, m *Module) {
 	{
 		mclose := m.Func("internal/counter", "mappedFile.close")
 		allowed := map[string]string{
-			"internal/counter.openMapped":                           "a mapping being built",
-			"(*internal/counter.mappedFile).newCounter":             "a superseded private re-mapping",
-			"(*internal/counter.mappedFile).extend":                 "a re-mapping that failed",
-			"(*internal/counter.file).rotate1":                      "deferred clean-up only",
-			"(*internal/counter.file).newCounter1":                  "deferred clean-up only",
-			"internal/counter.Open":                                 "the closer handed to the application",
+			"internal/counter.openMapped":               "a mapping being built",
+			"(*internal/counter.mappedFile).newCounter": "a superseded private re-mapping",
+			"(*internal/counter.mappedFile).extend":     "a re-mapping that failed",
+			"(*internal/counter.file).rotate1":          "deferred clean-up only",
+			"(*internal/counter.file).newCounter1":      "deferred clean-up only",
+			"internal/counter.Open":                     "the closer handed to the application",
 		}
 		deferredOnly := map[string]bool{"(*internal/counter.file).rotate1": true, "(*internal/counter.file).newCounter1": true}
 		n := 0
